@@ -195,6 +195,53 @@ pub struct Universe {
 
 const UNKNOWN: &[&str] = &["unknown::Path1", "x::Y", "absent::from::registry::Z", "Lonely", "sim::corpus::Nope"];
 
+/// Paths that are NOT the path of any registry type but look like one.
+pub fn near_misses(reg: &PortableRegistry, rng: &mut Rng) -> Vec<String> {
+    let all: BTreeSet<Vec<String>> = reg.types.iter().map(|t| t.ty.path.segments.clone()).collect();
+    let named: Vec<Vec<String>> = all.iter().filter(|p| p.len() >= 2).cloned().collect();
+    let mut out: Vec<Vec<String>> = vec![];
+    for _ in 0..4 {
+        if named.is_empty() {
+            break;
+        }
+        let p = rng.pick(&named).clone();
+        let n = p.len();
+        match rng.below(6) {
+            0 => out.push(p[1 + rng.usize_below(n - 1)..].to_vec()), // proper suffix
+            1 => {
+                let mut q = vec!["outer".to_string()];
+                q.extend(p);
+                out.push(q) // extension to the left
+            }
+            2 => out.push(p[..1 + rng.usize_below(n - 1)].to_vec()), // proper prefix
+            3 => {
+                let mut q = p.clone();
+                q[n - 2] = format!("{}_x", q[n - 2]);
+                out.push(q) // same length, sibling module
+            }
+            4 => {
+                let mut q = p.clone();
+                q[n - 1] = q[n - 1].to_lowercase();
+                out.push(q)
+            }
+            _ => {
+                let mut q = p.clone();
+                q.push("Inner".into());
+                out.push(q) // extension to the right
+            }
+        }
+    }
+    out.push(vec!["core".into(), "option".into(), "Option".into()]);
+    out.push(vec!["std".into(), "result".into(), "Result".into()]);
+    out.into_iter()
+        .filter(|p| !all.contains(p) && !p.is_empty())
+        .filter(|p| p.iter().all(|s| syn::parse_str::<syn::Ident>(s).is_ok()))
+        .map(|p| p.join("::"))
+        .collect::<BTreeSet<_>>()
+        .into_iter()
+        .collect()
+}
+
 pub fn gen_universe(w: &World, rng: &mut Rng) -> Universe {
     // probe registries: families (single id per chosen path)
     let fam: Vec<&corpus::Entry> = w
@@ -215,7 +262,11 @@ pub fn gen_universe(w: &World, rng: &mut Rng) -> Universe {
     let n_paths = 4 + rng.usize_below(7);
     let n_unknown = 1 + rng.usize_below(3.min(n_paths - 1));
     let mut paths = rng.subset(&single, (n_paths - n_unknown).min(single.len()));
-    paths.extend(rng.subset(UNKNOWN, n_unknown).into_iter().map(|s| s.to_string()));
+    // unknown paths: unrelated ones and near misses of registry paths (suffix, extension,
+    // prefix, sibling module, different case, a prelude type spelled with its std path)
+    let mut unknown_pool: Vec<String> = UNKNOWN.iter().map(|s| s.to_string()).collect();
+    unknown_pool.extend(near_misses(&e.reg, rng));
+    paths.extend(rng.subset(&unknown_pool, n_unknown));
     rng.shuffle(&mut paths);
     let nd = 3 + rng.usize_below(6);
     let na = 2 + rng.usize_below(4);
@@ -444,8 +495,9 @@ pub struct Readback {
     pub contains: BTreeMap<String, bool>,
 }
 
-fn set_of<T: quote::ToTokens>(s: &std::collections::HashSet<T>) -> BTreeSet<String> {
-    s.iter().map(|x| nospace(&tokens_of(x))).collect()
+/// Works for any collection the getters may return (`&HashSet<T>` today).
+fn set_of<'a, T: quote::ToTokens + 'a>(s: impl IntoIterator<Item = &'a T>) -> BTreeSet<String> {
+    s.into_iter().map(|x| nospace(&tokens_of(x))).collect()
 }
 
 /// Read everything the builders expose. `derives_on_specific_types()` chains the
